@@ -204,3 +204,37 @@ func VH_C09_AsArgument(p []int) {
 	vhAssertNodeSame(before, vhSnapDeep(ro, 0), "read-only-argument-unchanged")
 	verifReach("end")
 }
+
+// A read-only Stack NESTED below a writable one (as an element, wrapped in a
+// single-child envelope, and as a Condition's expression) must not change
+// when a method is called on the writable parent: several methods (Reveal,
+// Defrag, Reset, Transfer, ...) descend into or re-arrange what they hold.
+// p: method index, variant, nesting (0 element, 1 enveloped element, 2
+// Condition expression)
+func VH_C09_NestedUnderParent(p []int) {
+	m := vhAutoStack[p[0]]
+	verifCase(m.name)
+	// redundant single-child wrappers and nil gaps inside: bait for Reveal / Defrag
+	ro := And().Push(Or().Push(And().Push("deep1", "deep2")), "r2", nil, "r4")
+	cfg, _ := ro.config()
+	cfg.opt = cfgFlag(nondetUint16())&(vhOptMask&^ronly) | ronly
+	if p[1]&2 != 0 {
+		ro.SetReadOnly(false).SetMutex().SetReadOnly(true)
+	}
+	var parent Stack
+	switch p[2] {
+	case 0:
+		parent = Or().Push("p0", vhWrapStack(ro, nondetChoice(4)), "p2")
+	case 1:
+		parent = Or().Push("p0", And().Push(ro), "p2")
+	default:
+		parent = Or().Push("p0", Cond("kw", Eq, ro), List().Push("sibling"))
+	}
+	vhAnyLimit = 6
+	vhVarMax = 1
+	before := vhSnapDeep(ro, 0)
+	h := parent
+	m.callS(&h)
+	vhAssertNodeSame(before, vhSnapDeep(ro, 0), "read-only-descendant-unchanged")
+	verifReach("end")
+}
